@@ -47,9 +47,22 @@ enum Outcome {
 }
 
 fn plan_for(rng: &mut Rng, table: char, tok: &mut u64) -> (Vec<Planned>, Option<Duration>) {
+    // tokio's timer wheel has 1 ms resolution: two events inside the same millisecond may fire in
+    // either order. Every event of a request (frames, cancellation) therefore sits on its own
+    // multiple of 4 ms, and nothing is placed within 12 ms of the request timeout (2000 ms).
     let mut v = Vec::new();
     let n = rng.urange(0, 5);
     let mut used: HashSet<u64> = HashSet::new();
+    let mut slot = |rng: &mut Rng, lo: u64, hi: u64| -> u64 {
+        loop {
+            let k = rng.range(lo / 4, hi / 4);
+            let ms = k * 4;
+            if (ms as i64 - 2000).abs() < 12 || !used.insert(k) {
+                continue;
+            }
+            return ms;
+        }
+    };
     for _ in 0..n {
         let act = match rng.below(10) {
             0..=3 => Act::Right,
@@ -68,16 +81,12 @@ fn plan_for(rng: &mut Rng, table: char, tok: &mut u64) -> (Vec<Planned>, Option<
             }
             _ => Act::Right,
         };
-        // distinct microsecond instants, never within 5 ms of the timeout edge
-        let mut us = if rng.chance(0.8) { rng.range(1_000, 1_900_000) } else { rng.range(2_100_000, 2_900_000) };
-        while !used.insert(us) {
-            us += 1;
-        }
+        let ms = if rng.chance(0.8) { slot(rng, 4, 1900) } else { slot(rng, 2100, 2900) };
         *tok += 1;
-        v.push(Planned { at: Duration::from_micros(us), act, token: format!("tok-{table}-{}", *tok) });
+        v.push(Planned { at: Duration::from_millis(ms), act, token: format!("tok-{table}-{}", *tok) });
     }
     v.sort_by_key(|p| p.at);
-    let cancel = if rng.chance(0.2) { Some(Duration::from_micros(rng.range(500, 2_500_000) | 1)) } else { None };
+    let cancel = if rng.chance(0.2) { Some(Duration::from_millis(slot(rng, 4, 2500))) } else { None };
     (v, cancel)
 }
 
@@ -176,9 +185,13 @@ async fn table_a(mon: &Monitor, rng: &mut Rng, tok: &mut u64) {
         return;
     };
     let nreq = rng.urange(1, mon.by_tier(24, 60));
+    // a congested link: putting a frame on the wire takes virtual time, so a caller can give up mid-send
+    let stall = if rng.chance(0.35) { Duration::from_millis(40) } else { Duration::ZERO };
+    hub.set_fault(&x.tid_hex, FaultPlan { send_stall: stall, ..Default::default() });
     let mut keys = Vec::new();
     let mut handles = Vec::new();
     let mut targets = Vec::new();
+    let mut cancelled_in_send = 0usize;
     for i in 0..nreq {
         let key = rng.arr32();
         let p = rng.usize_below(npup);
@@ -187,12 +200,24 @@ async fn table_a(mon: &Monitor, rng: &mut Rng, tok: &mut u64) {
         let mgr = x.mgr.clone();
         let peer = pups[p].hex.clone();
         let op = if i % 3 == 0 { DhtNetworkOperation::FindValue { key } } else { DhtNetworkOperation::FindNode { key } };
-        handles.push(tokio::spawn(async move { mgr.send_request(&peer, op).await }));
+        let h = tokio::spawn(async move { mgr.send_request(&peer, op).await });
+        if !stall.is_zero() && rng.chance(0.3) {
+            let ah = h.abort_handle();
+            let at = Duration::from_millis(rng.range(1, 36));
+            cancelled_in_send += 1;
+            tokio::spawn(async move {
+                tokio::time::sleep(at).await;
+                ah.abort();
+            });
+        }
+        handles.push(h);
     }
-    // let the request frames reach the puppets' inboxes (no virtual time passes)
+    // let the request frames reach the puppets' inboxes
+    tokio::time::sleep(stall).await;
     for _ in 0..20 {
         tokio::task::yield_now().await;
     }
+    mon.count("A.cancelled_during_send", cancelled_in_send as u64);
     let issue_t = hub.now();
     let mut ids: HashMap<[u8; 32], (String, DhtNetworkOperation, String)> = HashMap::new(); // key -> (msg id, payload, source)
     for p in pups.iter_mut() {
@@ -302,7 +327,7 @@ async fn table_a(mon: &Monitor, rng: &mut Rng, tok: &mut u64) {
     }
     let left = x.mgr.verif_active_operations_len();
     mon.eval();
-    if !any_cancel {
+    if !any_cancel && cancelled_in_send == 0 {
         mon.case(("A-leak", nreq.min(8), left));
         if left != 0 {
             mon.violation("A/pending-entry-survives-completed-requests", json!({"left": left, "nreq": nreq}));
@@ -326,21 +351,36 @@ async fn table_b(mon: &Monitor, rng: &mut Rng, tok: &mut u64) {
     let flood = rng.chance(0.25);
     let nreq = if flood { rng.urange(257, mon.by_tier(300, 400)) } else { rng.urange(1, mon.by_tier(30, 80)) };
     let to = REQ_TO;
+    let stall = if !flood && rng.chance(0.35) { Duration::from_millis(40) } else { Duration::ZERO };
+    hub.set_fault(&x.tid_hex, FaultPlan { send_stall: stall, ..Default::default() });
     let mut handles = Vec::new();
     let mut targets = Vec::new();
     let mut max_len = 0usize;
+    let mut cancelled_in_send = 0usize;
     for i in 0..nreq {
         let p = rng.usize_below(npup);
         targets.push(p);
         let t = x.transport.clone();
         let peer = pups[p].hex.clone();
         let payload = format!("req-{i}").into_bytes();
-        handles.push(tokio::spawn(async move { t.send_request(&peer, "p", payload, to).await }));
+        let h = tokio::spawn(async move { t.send_request(&peer, "p", payload, to).await });
+        if !stall.is_zero() && rng.chance(0.3) {
+            let ah = h.abort_handle();
+            let at = Duration::from_millis(rng.range(1, 36));
+            cancelled_in_send += 1;
+            tokio::spawn(async move {
+                tokio::time::sleep(at).await;
+                ah.abort();
+            });
+        }
+        handles.push(h);
         if i % 16 == 0 {
             tokio::task::yield_now().await;
             max_len = max_len.max(x.transport.verif_active_requests_len().await);
         }
     }
+    tokio::time::sleep(stall).await;
+    mon.count("B.cancelled_during_send", cancelled_in_send as u64);
     for _ in 0..40 {
         tokio::task::yield_now().await;
         max_len = max_len.max(x.transport.verif_active_requests_len().await);
@@ -513,9 +553,9 @@ async fn table_b(mon: &Monitor, rng: &mut Rng, tok: &mut u64) {
     let left = x.transport.verif_active_requests_len().await;
     mon.eval();
     let cancelled = plans.iter().filter(|p| p.1.is_some()).count();
-    mon.case(("B-leak", cancelled.min(4), left.min(4)));
+    mon.case(("B-leak", cancelled.min(4), cancelled_in_send.min(4), left.min(4)));
     if left != 0 {
-        let f = if cancelled > 0 { "after-dropped-future" } else { "after-completed-requests" };
+        let f = if cancelled_in_send > 0 { "after-future-dropped-during-send" } else if cancelled > 0 { "after-dropped-future" } else { "after-completed-requests" };
         mon.violation(&format!("B/pending-entry-survives/{f}"), json!({"left": left, "cancelled": cancelled, "nreq": nreq}));
     }
     let _ = tokio::time::timeout(Duration::from_secs(60), x.mgr.stop()).await;
@@ -527,10 +567,14 @@ struct RecSender {
     me: String,
     sent: parking_lot::Mutex<Vec<(String, Vec<u8>)>>,
     fail_for: parking_lot::Mutex<HashSet<String>>,
+    stall: Duration,
 }
 #[async_trait::async_trait]
 impl NetworkSender for RecSender {
     async fn send_message(&self, peer_id: &String, _protocol: &str, data: Vec<u8>) -> saorsa_core::error::P2pResult<()> {
+        if !self.stall.is_zero() {
+            tokio::time::sleep(self.stall).await;
+        }
         if self.fail_for.lock().contains(peer_id) {
             return Err(saorsa_core::error::P2PError::Network(saorsa_core::error::NetworkError::PeerNotFound(peer_id.clone().into())));
         }
@@ -548,7 +592,8 @@ async fn table_c(mon: &Monitor, rng: &mut Rng, tok: &mut u64) {
         mon.inconclusive("engine ctor failed");
         return;
     };
-    let sender = Arc::new(RecSender { me: "me".into(), sent: Default::default(), fail_for: Default::default() });
+    let stall = if rng.chance(0.3) { Duration::from_millis(40) } else { Duration::ZERO };
+    let sender = Arc::new(RecSender { me: "me".into(), sent: Default::default(), fail_for: Default::default(), stall });
     eng.set_transport(sender.clone());
     let npeers = rng.urange(1, 6);
     let mut peer_ids = Vec::new();
@@ -564,6 +609,23 @@ async fn table_c(mon: &Monitor, rng: &mut Rng, tok: &mut u64) {
     let key = rng.arr32();
     let e2 = eng.clone();
     let h = tokio::spawn(async move { e2.retrieve(&DhtKey::from_bytes(key)).await });
+    let cancel_in_send = !stall.is_zero() && rng.chance(0.4);
+    if cancel_in_send {
+        tokio::time::sleep(Duration::from_millis(rng.range(1, 39))).await;
+        h.abort();
+        for _ in 0..10 {
+            tokio::task::yield_now().await;
+        }
+        let left = eng.verif_pending_len().await;
+        mon.eval();
+        mon.case(("C-cancel-in-send", left.min(3)));
+        mon.count("C.cancelled_during_send", 1);
+        if left != 0 {
+            mon.violation("C/pending-entry-survives/after-future-dropped-during-send", json!({"left": left}));
+        }
+        return;
+    }
+    tokio::time::sleep(stall).await;
     for _ in 0..10 {
         tokio::task::yield_now().await;
     }
@@ -574,13 +636,14 @@ async fn table_c(mon: &Monitor, rng: &mut Rng, tok: &mut u64) {
     let timeout = Duration::from_secs(5);
     let mut valid_tokens: HashSet<String> = HashSet::new();
     let mut invalid_tokens: HashSet<String> = HashSet::new();
-    let cancel = if rng.chance(0.2) { Some(Duration::from_millis(rng.range(1, 5500))) } else { None };
+    let cancel = if rng.chance(0.2) { Some(Duration::from_millis(4 * rng.range(1, 1400) + 2)) } else { None };
     let mut n_adv = 0;
     for (_p, id) in &reqs {
         for k in 0..rng.urange(0, 3) {
             *tok += 1;
             let token = format!("tok-C-{}", *tok);
-            let at = Duration::from_micros(if rng.chance(0.8) { rng.range(1000, 4_900_000) } else { rng.range(5_100_000, 5_900_000) } + k as u64);
+            // own 4 ms slot per event (1 ms timer resolution), away from the 5 s query timeout
+            let at = Duration::from_millis(4 * (if rng.chance(0.8) { rng.range(1, 1200) } else { rng.range(1280, 1450) }) + 0 * k as u64);
             let kind = rng.below(4);
             let (rid, valid) = match kind {
                 0 | 1 => (id.clone(), true),
@@ -664,6 +727,7 @@ fn realtime_leak_lane(mon: &Monitor, seed: u64) {
         let _rx = hub.register_puppet(tid, addr);
         let _ = x.mgr.connect_to_peer(&addr.to_string()).await;
         let ph = hex::encode(tid);
+        hub.set_fault(&x.tid_hex, FaultPlan { send_stall: Duration::from_millis(15), ..Default::default() });
         let rounds = mon.by_tier(3, 12);
         for round in 0..rounds {
             let mut hs = Vec::new();
@@ -681,7 +745,12 @@ fn realtime_leak_lane(mon: &Monitor, seed: u64) {
                     dropped += 1;
                 }
             }
-            // quiescence: every future resolved or dropped, 2x timeout (+ generous margin) of REAL time, one trigger request
+            // quiescence: every future resolved or dropped (joined, so that a task the loaded machine
+            // scheduled late cannot still be legitimately pending), 2x timeout (+ generous margin)
+            // of REAL time, one trigger request
+            for h in hs {
+                let _ = tokio::time::timeout(Duration::from_secs(30), h).await;
+            }
             tokio::time::sleep(to * 2 + Duration::from_millis(400)).await;
             let _ = x.mgr.send_request(&ph, DhtNetworkOperation::Ping).await;
             let left = x.mgr.verif_active_operations_len();
@@ -700,7 +769,7 @@ fn realtime_leak_lane(mon: &Monitor, seed: u64) {
 fn main() {
     let mon = Monitor::new("C04", "exploration");
     mon.set_rule("case = one request life-cycle in one of three pending tables (A: DHT RPC, B: /rr/ request-response, C: core-engine retrieve) with a seeded adversarial delivery plan (wrong sender, stranger, unknown/replayed id, duplicate, late, result-less, dropped future); non-trivial when at least one adversarial frame or a cancellation is aimed at it; distinct by (table, adversarial classes, cancellation, outcome) plus leak/cap observations");
-    mon.assume("in-memory link below TransportHandle, paused clock; all injected frames have distinct virtual instants so delivery order is unambiguous");
+    mon.assume("in-memory link below TransportHandle, paused clock; every event of a request sits on its own 4 ms slot (tokio timers resolve 1 ms) and at least 12 ms away from the request timeout, so delivery order is unambiguous");
     mon.assume("table C has no notion of a sender, so 'from the contacted peer' is not judged there; for C any in-time reply carrying the request id may win");
     mon.assume("table A entries of dropped futures are aged by std::time::Instant: that sub-check runs in a real-time lane (request timeout 60 ms, wait 2x+400 ms, one trigger request)");
     let per_shard = mon.by_tier(120u64, 3000);
